@@ -1,6 +1,9 @@
 /-
 Line-protocol driver for C13: one fluent program per line
   {"stmts":[{"op":"source",…},{"op":"named","a":0,…},…]}
+Every statement is executed by the model function that `Prog.build` (Props/C13Den.lean) composes for that operation
+(map, mapMany, reduce, named, mean, std, combine, flattenKw, select(N), iselect(N), expandG, broadcastX, join, arithScalar,
+arithAction, transform), so the correspondence check ties exactly what the denotation theorem is about.
 answer: one JSON array with, per statement, {"dims":[[name,[labels],indexed]…],"scalars":[[name,label]…],
 "exprs":[canonical expression per position, row-major]} | {"err":class} | {"skip":true}.
 -/
@@ -102,7 +105,7 @@ def transformFn (kind fdim : String) (a : NodeArray) (p : Json) : Except Err Nod
   | "mul" => .ok (arithScalar "multiply" (staticOfJson p) a)
   | "seldrop" => select fdim (.one (coordOfJson p)) true a
   | "sel" => select fdim (.one (coordOfJson p)) false a
-  | "take" => expandTransform (.num 0) a (staticOfJson p)
+  | "take" => expandTransformKw (.num 0) [] a (staticOfJson p)
   | _ => .error .outOfScope
 
 def execStmt (env : Array (Option NodeArray)) (j : Json) : Except Err NodeArray := do
@@ -123,17 +126,39 @@ def execStmt (env : Array (Option NodeArray)) (j : Json) : Except Err NodeArray 
     | "mean" => mean dim bs keep (kwOf j) a
     | "std" => std dim bs keep (kwOf j) a
     | n => named n dim bs keep (kwOf j) a
-  | "stack" => stack dim bs keep (getInt j "axis") a
-  | "concatenate" => concatenate dim bs keep a
-  | "flatten" => flatten dim (getInt j "axis") a
+  | "stack" => combine "stack" (("axis", .num (getInt j "axis")) :: kwOf j) dim bs keep a
+  | "concatenate" => combine "concat" (kwOf j) dim bs keep a
+  | "flatten" => flattenKw dim (getInt j "axis") (kwOf j) a
+  | "mapn" =>
+    mapMany ((getArr j "ks").map (fun k => ({ fn := "affine", tmpl := [.inp 0, .lit (.num (asInt k : Rat))] } : Payload)))
+      ((getArr j "shape").map asNat) a
+  | "selectn" =>
+    let crit := (getArr j "crit").map asArr
+    if getStr j "how" == "select" then
+      selectN (crit.map (fun c => match c with
+        | [d, k, x] => (asStr d, if asStr k == "val" then Sel.one (coordOfJson x) else Sel.many ((asArr x).map coordOfJson))
+        | _ => ("", Sel.many []))) (getBool j "drop") a
+    else
+      iselectN (crit.map (fun c => match c with
+        | [d, k, x] => (asStr d, if asStr k == "val" then Sel.one (asNat x) else Sel.many ((asArr x).map asNat))
+        | _ => ("", Sel.many []))) (getBool j "drop") a
   | "select" =>
     if hasKey j "val" then select dim (.one (coordOfJson ((j.getObjVal? "val").toOption.getD Json.null))) (getBool j "drop") a
     else select dim (.many (getCoords j "vals")) (getBool j "drop") a
   | "iselect" =>
     if hasKey j "val" then iselect dim (.one (getNat j "val")) (getBool j "drop") a
     else iselect dim (.many ((getArr j "vals").map asNat)) (getBool j "drop") a
-  | "expand" => expand (dimArgOf ((j.getObjVal? "dim").toOption.getD Json.null)) (getInt j "internal") (getNat j "size") (getNat j "axis") a
-  | "broadcast" => broadcast a b
+  | "expand" =>
+    let spec : ExpandSpec :=
+      if hasKey j "icoord" then
+        match asArr ((j.getObjVal? "icoord").toOption.getD Json.null) with
+        | [n, vs] => .coord (asStr n) ((asArr vs).map staticOfJson)
+        | _ => .coord "" []
+      else
+        .sized (staticOfJson ((j.getObjVal? "internal").toOption.getD Json.null))
+          (match j.getObjVal? "size" with | .ok (.num _) => some (getNat j "size") | _ => none)
+    expandG (dimArgOf ((j.getObjVal? "dim").toOption.getD Json.null)) spec (kwOf j) (getNat j "axis") a
+  | "broadcast" => broadcastX a b ((getArr j "exclude").map asStr)
   | "join" => join a b (dimArgOf ((j.getObjVal? "dim").toOption.getD Json.null)) (getBool j "match")
   | "arith" =>
     if hasKey j "b" then arithAction (getStr j "fn") a b
